@@ -162,6 +162,36 @@ class Write(Harness):
         cl.append(("all metadata members written with their names and values", json_same(got_meta, want_meta)))
         return cl
 
+class RoundTrip(Harness):
+    prop = "C18"; opname = "geo_roundtrip"
+    goals = ["geojson.py:GeoJSON.write", "geojson.py:GeoJSON.read"]
+    def __init__(self, maxn):
+        self.maxn = maxn; self.name = f"C18.roundtrip.n{maxn}"
+        self.bounds = {"rows": f"1..{maxn}", "columns": "p (int64), q (float64 with missing values, possibly all missing), s (string with missing values), geometry"}
+        self.symbolic = ["cells"]; self.choice_dims = ["nrow", "null geometry"]
+    def build(self, ctx):
+        n = choice("n", range(1, self.maxn + 1))
+        from .common import mk_col
+        cols = {"p": mk_col("i", n, "p"), "q": mk_col("f", n, "q"), "s": mk_col("T", n, "s"),
+                "geometry": Arr("object", [None if choice(f"g{i}", [False, True]) else dict(POINT) for i in range(n)])}
+        for c in cols["q"].cells: ctx.assume(z3.Not(z3.fpIsInf(c)))
+        for c in cols["p"].cells: ctx.assume(z3.And(c >= -2**53, c <= 2**53))
+        return {"data": Frame(cols, cls="GeoJSON"), "metadata": [["name", "layer"]]}
+    def spec(self, inp, out):
+        if isinstance(out, Raised): return [(f"does not raise ({out.type}: {out.msg[:80]})", T(False))]
+        from .c13 import same_frame_clauses
+        data = inp["data"]; back = out["back"]
+        cl = [("re-read object is a GeoJSON frame", T(isinstance(back, Frame) and back.cls == "GeoJSON"))]
+        if not isinstance(back, Frame): return cl
+        cl.append(("same columns after writing and re-reading", T(back.names == data.names)))
+        if back.names != data.names: return cl
+        a = Frame({k: v for k, v in data.cols.items() if k != "geometry"}); b = Frame({k: v for k, v in back.cols.items() if k != "geometry"})
+        cl += same_frame_clauses(a, b, "re-read", ())
+        for i, (x, y) in enumerate(zip(data.cols["geometry"].cells, back.cols["geometry"].cells)):
+            cl.append((f"geometry {i} unchanged", json_same(x, y)))
+        cl.append(("metadata equal", json_same(back.attrs.get("metadata", {}), {"type": "FeatureCollection", "name": "layer"})))
+        return cl
+
 def harnesses(tier):
     n = 2 if tier == "quick" else 3
-    return [Read(n), Write(n)]
+    return [Read(n), Write(n), RoundTrip(n)]
